@@ -241,3 +241,197 @@ func init() {
 		c.Expect(4, n, "child/key stores in insert and delete")
 	})
 }
+
+// freshReturns: every (non-recover) return of f hands out a newly allocated
+// object, never the receiver itself.
+func freshReturns(c *Ctx, name string, f *ssa.Function) {
+	c.Funcs[f] = true
+	for _, r := range c.Returns(f) {
+		if r.Instr.Block() == f.Recover {
+			continue
+		}
+		v := retVal(r.Instr.(*ssa.Return), 0)
+		fresh := false
+		seen := map[ssa.Value]bool{}
+		var walk func(v ssa.Value) bool
+		walk = func(v ssa.Value) bool {
+			if seen[v] {
+				return true
+			}
+			seen[v] = true
+			switch x := v.(type) {
+			case *ssa.Alloc:
+				return true
+			case *ssa.Phi:
+				for _, e := range x.Edges {
+					if !walk(e) {
+						return false
+					}
+				}
+				return true
+			case *ssa.Call:
+				return x.Call.StaticCallee() != nil // a constructor; the receiver itself is a Parameter
+			case *ssa.MakeInterface:
+				return walk(x.X)
+			}
+			return false
+		}
+		fresh = walk(v)
+		c.Check(fresh, name+"/"+fnName(f), r.Pos(), "returns a newly allocated object", fnName(f)+" can return its receiver (or another existing object) instead of a fresh copy: the copy and the original then share the tracker, and changes made through one are committed by the other")
+	}
+}
+
+func init() {
+	extendProp("C07", "Copies of a trie's change trackers are independent objects: opTracer.copy and PrevalueTracer.Copy return a newly allocated tracker on every path (never the receiver), so a copied trie's insertions/deletions are not recorded in the original's commit set.", nil, func(c *Ctx) {
+		c.Rule("FRESH/C07.tracercopy")
+		n := 0
+		for _, fn := range []string{"(*opTracer).copy", "(*PrevalueTracer).Copy"} {
+			if f := c.TryFn("trie", fn); f != nil {
+				n++
+				freshReturns(c, "fresh", f)
+			}
+		}
+		c.Expect(2, n, "tracker copy methods")
+	})
+
+	extendProp("C08", "The proof walk matches a short node against the lookup key with the node's full key (terminator included): in get() and Prove the second argument of bytes.HasPrefix is n.Key itself, so a leaf never matches a longer, absent key.", nil, func(c *Ctx) {
+		c.Rule("SAMEVAL/C08.fullkey")
+		n := 0
+		for _, fn := range []string{"get", "(*Trie).Prove"} {
+			f := c.TryFn("trie", fn)
+			if f == nil {
+				continue
+			}
+			c.Funcs[f] = true
+			for _, s := range c.Calls(f, "bytes.HasPrefix") {
+				n++
+				a := s.Instr.(*ssa.Call).Call.Args[1]
+				ok := false
+				if u, isLoad := a.(*ssa.UnOp); isLoad {
+					if fa, isFA := u.X.(*ssa.FieldAddr); isFA && fieldAddrName(fa) == "trie.shortNode.Key" {
+						ok = true
+					}
+				}
+				c.Check(ok, "prefix-is-node-key/"+fnName(f), s.Pos(), "the short node is matched with its whole key", fnName(f)+" matches a short node with something other than its whole key (a stripped or sliced key): a leaf then matches longer lookup keys and the proof of an absent key verifies as present")
+			}
+		}
+		c.Expect(2, n, "short-node prefix matches in the proof walks")
+	})
+
+	extendProp("C10", "The stack trie's byte-to-nibble conversion covers the whole key: writeHexKey returns dst[:2*len(key)] and its loop is bounded by the key alone, and the scratch buffers are grown whenever their capacity is below 2*len(key).", nil, func(c *Ctx) {
+		c.Rule("SHAPE/C10.hexkey")
+		isTwiceLen := func(v ssa.Value) bool {
+			b, ok := stripConv(v).(*ssa.BinOp)
+			if !ok || b.Op != token.MUL {
+				return false
+			}
+			return (constIs(b.X, 2) && Len(Param("key"))(b.Y)) || (constIs(b.Y, 2) && Len(Param("key"))(b.X))
+		}
+		if f := c.Fn("trie", "writeHexKey"); f != nil {
+			c.Funcs[f] = true
+			for _, r := range c.Returns(f) {
+				sl, ok := retVal(r.Instr.(*ssa.Return), 0).(*ssa.Slice)
+				c.Check(ok && sl.High != nil && isTwiceLen(sl.High) && Param("dst")(sl.X), "whole-key/"+fnName(f), r.Pos(), "returns dst[:2*len(key)]", "writeHexKey does not return exactly 2*len(key) nibbles: a key longer than the scratch buffer is silently truncated")
+			}
+		}
+		if f := c.Fn("trie", "(*StackTrie).grow"); f != nil {
+			c.Funcs[f] = true
+			for _, fld := range []string{"kBuf", "pBuf"} {
+				isCap := func(v ssa.Value) bool {
+					call, ok := v.(*ssa.Call)
+					if !ok {
+						return false
+					}
+					b, ok := call.Call.Value.(*ssa.Builtin)
+					return ok && b.Name() == "cap" && matchField(fieldOfLoad(call.Call.Args[0]), "trie.StackTrie."+fld)
+				}
+				e := EdgesWhere(f, Cmp(isCap, token.LSS, isTwiceLen))
+				c.Check(len(e) > 0, "grow/"+fld, f.Pos(), "grown when cap("+fld+") < 2*len(key)", "StackTrie.grow does not compare cap("+fld+") with 2*len(key): keys longer than the initial buffer are converted into a buffer that is too small")
+			}
+		}
+	})
+
+	extendProp("C12", "A code entry registers a dependency on its parent only if the code will actually be requested: in AddCodeEntry the parent's deps counter is incremented only behind the already-retrieved (membatch) and already-stored (database) checks.", nil, func(c *Ctx) {
+		c.Rule("ORDER/C12.codedeps")
+		f := c.Fn("trie", "(*Sync).AddCodeEntry")
+		if f == nil {
+			return
+		}
+		var incs []Site
+		for _, s := range c.Stores(f, "trie.nodeRequest.deps") {
+			incs = append(incs, s)
+		}
+		c.Expect(1, len(incs), "dependency registration in AddCodeEntry")
+		c.Dom("not-in-membatch", f, incs, "parent dependency registered", GCond("!membatch.hasCode(hash)", f, False(CallRes("(*trie.syncMemBatch).hasCode"))))
+		c.Dom("not-in-database", f, incs, "parent dependency registered", GCond("!HasCodeWithPrefix(db, hash)", f, False(CallRes("core/rawdb.HasCodeWithPrefix"))))
+	})
+
+	extendProp("C13", "A slot of an account destructed in this block is never read from the database: in GetCommittedState every path to the storage reader passes the not-destructed outcome of the stateObjectsDestruct lookup (whatever the account's current storage root).", nil, func(c *Ctx) {
+		c.Rule("DOM/C13.destructed")
+		cst := "core/state"
+		f := c.Fn(cst, "(*stateObject).GetCommittedState")
+		if f == nil {
+			return
+		}
+		rd := c.Calls(f, "(core/state.Reader).Storage|(core/state.StateReader).Storage")
+		c.Expect(1, len(rd), "database read in GetCommittedState")
+		edges := map[Edge]bool{}
+		eachInstr(f, func(in ssa.Instruction) {
+			lk, ok := in.(*ssa.Lookup)
+			if !ok || !lk.CommaOk || !matchField(fieldOfLoad(lk.X), cst+".StateDB.stateObjectsDestruct") {
+				return
+			}
+			for e := range EdgesWhere(f, False(func(v ssa.Value) bool {
+				ex, ok := v.(*ssa.Extract)
+				return ok && ex.Tuple == ssa.Value(lk) && ex.Index == 1
+			})) {
+				edges[e] = true
+			}
+		})
+		g := Guard{Desc: "account not destructed in this block", Steps: []Step{{Edges: edges}}, Sites: len(edges)}
+		c.Dom("no-db-read-after-destruct", f, rd, "slot read from the database", g)
+	})
+
+	extendProp("C14", "A copied state carries the account trie whenever the original has one: every return of StateDB.Copy lies behind the copy of s.trie or s.trie == nil (mutations already applied to the trie are marked `applied` in the copy too, so a re-opened pristine trie would lose them).", nil, func(c *Ctx) {
+		c.Rule("DOM/C14.copytrie")
+		cst := "core/state"
+		f := c.Fn(cst, "(*StateDB).Copy")
+		if f == nil {
+			return
+		}
+		var sts []Site
+		for _, s := range c.Stores(f, cst+".StateDB.trie") {
+			if CallRes(cst + ".mustCopyTrie")(s.Instr.(*ssa.Store).Val) {
+				sts = append(sts, s)
+			}
+		}
+		c.Expect(1, len(sts), "copy of the account trie in StateDB.Copy")
+		var rets []Site
+		for _, r := range c.Returns(f) {
+			if r.Instr.Block() != f.Recover {
+				rets = append(rets, r)
+			}
+		}
+		isTrie := func(v ssa.Value) bool { return matchField(fieldOfLoad(v), cst+".StateDB.trie") }
+		c.Dom("trie-copied", f, rets, "return", GSites("state.trie = mustCopyTrie(s.trie)", sts), GCond("s.trie == nil", f, Cmp(isTrie, token.EQL, Nil())))
+	})
+
+	extendProp("C15", "Every committed-state slot read is recorded in the block access list, cached or not: each return of GetCommittedState lies behind StorageRead(address, key) or the access list being disabled.", nil, func(c *Ctx) {
+		c.Rule("DOM/C15.slotread")
+		cst := "core/state"
+		f := c.Fn(cst, "(*stateObject).GetCommittedState")
+		if f == nil {
+			return
+		}
+		rec := c.Calls(f, "(*core/types/bal.ConstructionBlockAccessList).StorageRead|*.StorageRead")
+		c.Expect(1, len(rec), "StorageRead recording in GetCommittedState")
+		var rets []Site
+		for _, r := range c.Returns(f) {
+			if r.Instr.Block() != f.Recover {
+				rets = append(rets, r)
+			}
+		}
+		isAL := func(v ssa.Value) bool { return matchField(fieldOfLoad(v), cst+".StateDB.stateAccessList") }
+		c.Dom("recorded-on-every-read", f, rets, "return", GSites("stateAccessList.StorageRead(addr, key)", rec), GCond("stateAccessList == nil", f, Cmp(isAL, token.EQL, Nil())))
+	})
+}
